@@ -122,6 +122,15 @@ func New(ctx context.Context, log *slog.Logger, opts ...Opt) (*Engine, error) {
 	// although we don't wait for them at that point.
 	// That does mean, at this point, error paths must close e.done
 	// and return e, so that backgrounded goroutines can also be Waited if desired.
+	if len(e.mCfg.InitialValidatorSet.Validators) == 0 {
+		// The mirror kernel treats an empty initial validator set as a bug and panics.
+		// Whether it came from the genesis or from the init chain response,
+		// it is a configuration problem to report.
+		return nil, errors.New(
+			"initial validator set is empty: neither the genesis (tmengine.WithGenesis) nor the init chain response provided validators",
+		)
+	}
+
 	ctx, cancel := context.WithCancel(ctx)
 	_ = cancel // Suppress unused cancel warning.
 
